@@ -3,6 +3,7 @@ import Genshi.WireCore
 import Genshi.Model.XmlSer
 import Genshi.Model.XmlReader
 import Genshi.Model.XmlParser
+import Genshi.Model.XmlSpec
 namespace Driver.C02
 open Genshi Genshi.Xml Genshi.Sexp
 
@@ -15,6 +16,7 @@ open Genshi Genshi.Xml Genshi.Sexp
     tok <text>                         -> ( ok tokens ) | N
     read <text>                        -> ( ok events ) | N
     roundtrip <ranges> <stream>        -> read (enc (ser stream))
+    domain <pref> <stream>             -> ( inDomain conclusionHolds ) for xml_roundtrip_events
     coalesce <stream>                  -> stream
     qname <text>                       -> ( ns loc )
   <pref> = ( ( uri prefix ) ... ), <ranges> = ( ( lo hi ) ... )
@@ -81,6 +83,13 @@ def handle : List Sexp → Option Sexp
       match serialize s with
       | some t => pure (okList rev (Reader.read (encodeText (inRanges r) t)))
       | none => pure (.atom "raise")
+  | [.atom "domain", p, s] => do
+      -- is the stream inside the hypothesis of xml_roundtrip_events, and does the model satisfy its conclusion?
+      let p ← pref? p; let s ← streamOfSexp? s
+      let xs := emptyTag s
+      let inDom := docOK xs && prefOK p && decide (WellNested s)
+      let holds := decide (Reader.resolve ((flatten p xs).map normF) = some (canonX xs))
+      pure (.list [ofBool inDom, ofBool holds])
   | [.atom "coalesce", s] => do
       let s ← streamOfSexp? s
       pure (streamToSexp (coalesce s))
